@@ -485,6 +485,94 @@ type Ret struct {
 
 // Returns lists the normal returns of fn (the synthetic recover block is skipped).
 func Returns(fn *ssa.Function) []Ret {
+	out := returnsOwn(fn)
+	if len(newHelpers) == 0 || fn.Parent() != nil {
+		return out
+	}
+	return expandHelperReturns(out, 0)
+}
+
+// expandHelperReturns: a return that hands on the results of ONE transparent helper call
+// (`return h(..)`, `x, err := h(..); return x, err`, `if err := h(..); err != nil { return err }`) is
+// replaced by the helper's own returns, seen from that call site and filtered by what the caller
+// already knows about the result's nil-ness. A function split into helpers keeps its returns.
+func expandHelperReturns(rets []Ret, depth int) []Ret {
+	if depth > 3 {
+		return rets
+	}
+	var out []Ret
+	for _, rt := range rets {
+		var call *ssa.Call
+		ok := false
+		idx := make([]int, len(rt.Results)) // result i comes from helper result idx[i] (-1: own value)
+		for i, v := range rt.Results {
+			idx[i] = -1
+			c, j := helperCallOf(v)
+			if c == nil {
+				if _, isConst := v.(*ssa.Const); !isConst {
+					ok = false
+					call = nil
+					break
+				}
+				continue
+			}
+			if call != nil && c != call {
+				ok = false
+				call = nil
+				break
+			}
+			call, ok = c, true
+			idx[i] = j
+		}
+		if !ok || call == nil {
+			out = append(out, rt)
+			continue
+		}
+		h := call.Call.StaticCallee()
+		fs := FactsAt(rt.Instr)
+		sub := expandHelperReturns(returnsOwn(h), depth+1)
+		n := 0
+		for _, hr := range sub {
+			keep := true
+			rs := make([]ssa.Value, len(rt.Results))
+			for i := range rt.Results {
+				if idx[i] < 0 {
+					rs[i] = rt.Results[i]
+					continue
+				}
+				if idx[i] >= len(hr.Results) {
+					keep = false
+					break
+				}
+				hv := hr.Results[idx[i]]
+				// nil-ness the caller established for this result
+				callRes := Render(rt.Results[i])
+				if c, isConst := hv.(*ssa.Const); isConst && c.Value == nil && HasFact(fs, "!eq("+callRes+",nil)") {
+					keep = false
+				}
+				if HasFact(fs, "eq("+callRes+",nil)") {
+					if c, isConst := hv.(*ssa.Const); !(isConst && c.Value == nil) {
+						// the helper returns something here that is not the nil constant: only kept when it may be nil
+						if _, isMk := hv.(*ssa.MakeInterface); isMk {
+							keep = false
+						}
+					}
+				}
+				rs[i] = &CtxValue{hv, call}
+			}
+			if keep {
+				out = append(out, Ret{hr.Instr, rs})
+				n++
+			}
+		}
+		if n == 0 {
+			out = append(out, rt)
+		}
+	}
+	return out
+}
+
+func returnsOwn(fn *ssa.Function) []Ret {
 	var out []Ret
 	for _, b := range fn.Blocks {
 		if b == fn.Recover {
